@@ -1,11 +1,11 @@
-import sys, warnings, time; sys.path.insert(0,'/verif'); warnings.simplefilter('ignore')
-from checks import c02
-import random
-rng=random.Random(1); hits=0
-for t in range(40):
-    m={}
-    for i in range(3):
-        m[f"p_{i}_0"]=str(round(rng.uniform(0.05,0.95),3))
-    rep={"label":"W-ovo","n":3,"K":2,"kind":"grad","model":m}
-    hits+=c02.replay(rep)
-print('hits',hits,'of 40')
+import sys, warnings; sys.path.insert(0,'/verif'); warnings.simplefilter('ignore')
+from checks import c03, common_models as cm
+from symx import core, loader
+from symx.explore import Explorer
+loader.install()
+def setup():
+    core.CTX.strict=True; core.CTX.merge_sign=True
+    return cm.FitEnv('LinearModel',(3,1,2),gemini='mi',batch_size=None,mlcl=True)
+ex=Explorer()
+for out,pc,tr in ex.run(lambda env: env.run_fit(), setup):
+    print(getattr(out,'tb',out)); break
